@@ -5,6 +5,8 @@
 //	TestTypedSessions  whole PostgreSQL sessions through acra's real proxy (internal/pgsess): the column
 //	                   description and the data rows are observed on the same wire, for sequences of
 //	                   SELECT statements over differently configured columns.
+//	TestTypedSessionsMySQL  the same for MySQL (internal/mysess): text protocol (COM_QUERY) and binary protocol
+//	                   (COM_STMT_PREPARE / COM_STMT_EXECUTE), one column definition per column and result set.
 //	TestEncoders       the PostgreSQL and MySQL encode/decode subscribers driven directly.
 package c19
 
@@ -28,6 +30,17 @@ func TestReplay(t *testing.T) {
 				return hx.Vs{{Sig: "harness:decode", Msg: err.Error()}}
 			}
 			res := CheckSession(c)
+			return res.vs
+		},
+		"TestTypedSessionsMySQL": func(raw json.RawMessage) hx.Vs {
+			var c MyCase
+			if err := json.Unmarshal(raw, &c); err != nil {
+				return hx.Vs{{Sig: "harness:decode", Msg: err.Error()}}
+			}
+			res := CheckMySession(c)
+			if res.inconclusive {
+				return nil
+			}
 			return res.vs
 		},
 		"TestEncoders": func(raw json.RawMessage) hx.Vs {
